@@ -24,6 +24,9 @@ class CGen:
         self.directives = directives
         self.bad_heads = bad_heads
         self.nonascii_heads = nonascii_heads
+        # structures named by numerals, name/arity terms: in the grammar, and the compiler raises on them
+        # only when it builds code for them - so they are mostly put where no code is built
+        self.odd_terms = False
 
     def atom(self):
         r = self.rnd
@@ -47,6 +50,10 @@ class CGen:
             return self.atom()
         if x < 0.65:
             return ('N', r.choice(NUMERALS))
+        if x < 0.66 and self.odd_terms:
+            if r.random() < 0.6:
+                return ('NF', r.choice(NUMERALS), [self.term(depth - 1) for _ in range(r.randint(0, 2))])
+            return ('SL', r.choice(PLAIN_ATOMS), r.choice(NUMERALS))
         if x < 0.8:
             name = self.atom()[1]
             return ('F', name, [self.term(depth - 1) for _ in range(r.randint(0, 3))])
@@ -80,6 +87,8 @@ class CGen:
             return 'fail'
         if x < 0.24:
             return 'cut'
+        if x < 0.26 and self.odd_terms:
+            return ('ncall', r.choice(NUMERALS), [self.term(1) for _ in range(r.randint(0, 2))])
         if x < 0.36 and self.ops:
             op = r.choice(S.BINOPS)
             return ('call', op, [self.term(1), self.term(1)], r.choice(['infix', 'infix', 'functional']))
@@ -92,6 +101,15 @@ class CGen:
         x = r.random()
         if x < 0.1:
             return ('neg', self.body(size - 1))
+        if x < 0.16:
+            # a part of the body for which the compiler builds no code
+            saved, self.odd_terms = self.odd_terms, r.random() < 0.7
+            try:
+                dead = self.body(size - 1)
+            finally:
+                self.odd_terms = saved
+            return r.choice([('conj', 'fail', dead), ('ite', 'fail', dead), ('conj', ('conj', 'cut', 'fail'), dead),
+                             ('disj', ('ite', 'fail', dead), 'tru')])
         ls = r.randint(1, size - 1)
         k = r.choice(['conj', 'conj', 'conj', 'disj', 'ite'])
         return (k, self.body(ls), self.body(size - ls))
@@ -99,6 +117,14 @@ class CGen:
     def clause(self):
         r = self.rnd
         name = self.pred_name(head=True)
+        self.odd_terms = r.random() < 0.03
+        try:
+            return self.clause_(name)
+        finally:
+            self.odd_terms = False
+
+    def clause_(self, name):
+        r = self.rnd
         args = [self.term(2) for _ in range(r.choice([0, 1, 1, 2, 2, 3]))]
         if r.random() < 0.4:
             return (name, args, 'tru')
